@@ -416,7 +416,11 @@ func ReplayMain(t *testing.T, path string) int {
 	var viol []Violation
 	x := NewExec()
 	step := 0
-	runInBubbles(t, 1, func(x *Exec) bool {
+	bubble := 1
+	if os.Getenv("VERIF_REPLAY_ONE_BUBBLE") != "" {
+		bubble = len(f.Prelude) + 1
+	}
+	runInBubbles(t, bubble, func(x *Exec) bool {
 		if step > len(f.Prelude) {
 			return false
 		}
